@@ -433,6 +433,13 @@ class PPO(RLAlgorithm):
                 batch_values = batch_values.squeeze()
 
                 if len(minibatch_idxs) > 1:
+                    # squeeze() also drops the component axis of one-component action
+                    # spaces; only Discrete actions are evaluated without that axis
+                    if batch_actions.dim() == 1 and not isinstance(
+                        self.action_space, spaces.Discrete
+                    ):
+                        batch_actions = batch_actions.unsqueeze(1)
+
                     log_prob, entropy, value = self.evaluate_actions(
                         obs=batch_states, actions=batch_actions
                     )
